@@ -24,6 +24,9 @@ pub enum Ev {
     /// the session writes the counter key itself (set / set-safe at the version ceiling / remove / increment): the key
     /// belongs to the node, it keeps saying how many sessions are open
     WriteCounter { s: usize, how: u8 },
+    /// every database is snapshotted (with whatever sessions are connected at that moment), the process ends and a new
+    /// one starts from the files: nobody is connected to it, new watchers join, the counting starts again
+    SnapshotRestart,
 }
 
 #[derive(Clone, Debug, Serialize, Deserialize)]
@@ -39,6 +42,7 @@ fn ev_strategy() -> impl Strategy<Value = Ev> {
         2 => (s.clone(), db.clone()).prop_map(|(s, db)| Ev::UseDbUser { s, db }),
         2 => (s.clone(), db.clone()).prop_map(|(s, db)| Ev::UseDbWrong { s, db }),
         2 => (s.clone(), db.clone()).prop_map(|(s, db)| Ev::UseDbUserWrong { s, db }),
+        1 => Just(Ev::SnapshotRestart),
         1 => s.clone().prop_map(|s| Ev::Refused { s }),
         1 => s.clone().prop_map(|s| Ev::Work { s }),
         4 => s.clone().prop_map(|s| Ev::Disconnect { s }),
@@ -79,6 +83,7 @@ pub fn run_case(ctx: &Ctx, case: &Case) -> Outcome {
     let mut got_seq: Vec<Vec<String>> = vec![vec![], vec![]];
     let mut fail: Option<(String, String)> = None;
     let mut nontrivial = false;
+    let mut restarted = false;
     let count = |sel: &Vec<Option<usize>>, db: usize| 1 + sel.iter().filter(|x| **x == Some(db)).count();
     let mut evs: Vec<Ev> = case.evs.clone();
     // the burst goes away at the end
@@ -133,6 +138,45 @@ pub fn run_case(ctx: &Ctx, case: &Case) -> Outcome {
                     nontrivial = true;
                 }
             }
+            Ev::SnapshotRestart => {
+                kind = "after-snapshot-and-restart";
+                let mut a = Session::new();
+                a.auth(&node);
+                a.send(&node, &format!("snapshot false {}|{}", DBS[0], DBS[1]));
+                node.pump();
+                node.snapshot_tick();
+                // the process ends: its sessions end with it (what the old watchers were told is judged so far)
+                for d in 0..2 {
+                    for m in watchers[d].drain() {
+                        if let Some(v) = m.strip_prefix("changed $connections ") {
+                            got_seq[d].push(v.trim().to_string());
+                        }
+                    }
+                    if got_seq[d] != want_seq[d] {
+                        fail = Some(("C17|watcher-told-a-count-that-never-was".into(), format!("database {} before the restart: count went through {:?} but the watcher was notified {:?}", DBS[d], want_seq[d], got_seq[d])));
+                    }
+                    want_seq[d].clear();
+                    got_seq[d].clear();
+                }
+                drop(a);
+                watchers.clear();
+                sessions = (0..3).map(|_| Session::new()).collect();
+                sel = vec![None; 3];
+                selections_of = vec![0; 3];
+                drop(node);
+                node = Node::boot_single(&dir);
+                for d in DBS {
+                    let mut w = Session::new();
+                    w.send(&node, &format!("use-db {} tok-{}", d, d));
+                    w.send(&node, "watch $connections");
+                    w.drain();
+                    watchers.push(w);
+                }
+                restarted = true;
+                if fail.is_some() {
+                    break;
+                }
+            }
             Ev::Disconnect { s } => {
                 kind = if sel[*s].is_some() { "disconnect-selected" } else { "disconnect-unselected" };
                 let mut old = std::mem::replace(&mut sessions[*s], Session::new());
@@ -152,7 +196,8 @@ pub fn run_case(ctx: &Ctx, case: &Case) -> Outcome {
                 fail = Some((format!("C17|wrong-count|{}", kind), format!("step {} {:?}: $connections of {} is {:?}, open sessions that selected it: {} (watcher included)", i, ev, DBS[d], got, want)));
                 break;
             }
-            if want != before[d] {
+            // (after a restart the new watcher subscribes once it is counted itself: it is not told its own arrival)
+            if want != before[d] && !matches!(ev, Ev::SnapshotRestart) {
                 want_seq[d].push(want.to_string());
             }
             for m in watchers[d].drain() {
@@ -191,6 +236,9 @@ pub fn run_case(ctx: &Ctx, case: &Case) -> Outcome {
     let mut out = Outcome::ok(nontrivial);
     if nontrivial {
         out.classes.push("session-selects-twice-before-leaving");
+    }
+    if restarted {
+        out.classes.push("snapshot-with-sessions-connected-then-restart");
     }
     out.fail = fail;
     out
